@@ -441,6 +441,19 @@ def r4_config_coverage(r, facts):
                 op = eb.operand(t['args'][1])
                 if op[0] == 'const' and str(op[2]).endswith(row['register']):
                     ok = name in {g[0] for g in config_guard_of(f, eb, loc)}
+            # ... and the table size registered is the configured one
+            nr_exprs = []
+            for loc2, s2 in f.assigns():
+                fl2 = [p_ for p_ in s2['lhs']['p'] if p_['k'] == 'field']
+                if fl2 and (fl2[-1].get('adt') or '').endswith('io_uring_rsrc_register') and fl2[-1]['name'] == 'nr':
+                    nr_exprs.append((loc2, eb.rvalue(s2['rv'])))
+                if not s2['lhs']['p'] and s2['rv']['k'] == 'agg' and (s2['rv'].get('adt') or '').endswith('io_uring_rsrc_register') and 'nr' in (s2['rv'].get('fields') or []):
+                    nr_exprs.append((loc2, eb.operand(s2['rv']['ops'][s2['rv']['fields'].index('nr')])))
+            if r.require(bool(nr_exprs), 'config:%s->nr' % name, 'io_uring_rsrc_register.nr is never set', f.where()):
+                for loc2, e2 in nr_exprs:
+                    from_cfg = any(x[0] == 'proj' and (access_path(x) or (None, ''))[0] is not None and access_path(x)[0][0] == 'arg' and name in access_path(x)[1].split('.') for x in subexprs(e2))
+                    r.inst('rsrc_register.nr = %s' % (str(e2)[:80],), f.where(loc2))
+                    r.require(from_cfg, 'config:%s->nr' % name, 'the number of direct descriptor slots registered (%s) is not the configured `%s`: the setting is ignored' % (str(e2)[:120], name), f.where(loc2))
             r.inst('Config.%s -> register(%s)' % (name, row['register']), f.where())
             r.require(ok, 'config:%s->register' % name, 'setting `%s` does not trigger register(%s)' % (name, row['register']), f.where())
     # the requested size is what is passed to io_uring_setup
